@@ -1,8 +1,10 @@
 mod detect;
+mod errtext;
 mod input_replay;
 mod mem;
 mod obs;
 mod scen;
+mod transcode_replay;
 mod val;
 mod rw;
 mod util;
@@ -19,6 +21,8 @@ fn main() {
     match cmd {
         "input-replay" => input_replay::run(&arg(2), num(3, 6) as usize, num(4, 2_000_000)),
         "record-obs" => scen::record(&arg(2), &arg(3), num(4, 50)),
+        "transcode-replay" => transcode_replay::run(&arg(2)),
+        "record-errtext" => errtext::record(&arg(2), num(3, 40)),
         "record-detect" => detect::record(&arg(2), num(3, 50)),
         "record-mem" => {
             let sizes: Vec<usize> = arg(4).split(',').filter_map(|s| s.parse().ok()).collect();
